@@ -33,13 +33,17 @@ func (b *Bind) GetSequenceID() uint32 {
 }
 
 func (b *Bind) GetCommand() sms.ICommander {
+	switch b.Header.ID {
+	case smpp.BIND_RECEIVER, smpp.BIND_TRANSMITTER:
+		return b.Header.ID
+	}
 	return smpp.BIND_TRANSCEIVER
 }
 
 func (b *Bind) GenEmptyResponse() sms.PDU {
 	return &BindResp{
 		Header: smpp.Header{
-			ID:       smpp.BIND_TRANSCEIVER_RESP,
+			ID:       smpp.CMDId(b.GetCommand().ToUint32() | uint32(smpp.GENERIC_NACK)),
 			Sequence: b.Header.Sequence,
 		},
 	}
@@ -116,6 +120,10 @@ func (b *BindResp) GetSequenceID() uint32 {
 }
 
 func (b *BindResp) GetCommand() sms.ICommander {
+	switch b.Header.ID {
+	case smpp.BIND_RECEIVER_RESP, smpp.BIND_TRANSMITTER_RESP:
+		return b.Header.ID
+	}
 	return smpp.BIND_TRANSCEIVER_RESP
 }
 
